@@ -87,7 +87,7 @@ fn mutations(objs: &[u8]) -> Vec<(String, Vec<u8>)> {
         for o in &h.objects {
             p += if h.qual == 0x17 { 1 } else { 2 };
             let status_at = p + o.data.len() - 1;
-            for code in (1u8..=18).chain([126, 127]) {
+            for code in (1u8..=18).chain([126, 127, 128, 129, 255]) {
                 let mut x = objs.to_vec();
                 x[status_at] = code;
                 v.push((format!("status{code}@{status_at}"), x));
@@ -322,6 +322,9 @@ enum Fail {
     /// the addressed outstation stays silent; the ideal reply (right sequence number, faithful
     /// contents) arrives from another outstation that is also associated with the channel
     OtherAssociationReplies,
+    /// not a failure of this request: the *other* association of the channel is removed while the
+    /// request is under way; the outstation keeps answering and the request completes normally
+    RemoveOtherAssociation,
 }
 
 /// a second outstation on the same channel
@@ -424,7 +427,7 @@ fn build_outcomes() -> Outcomes {
     let mut cases = Vec::new();
     for k in 0..KINDS {
         cases.push((k, Fail::None, 0));
-        for f in [Fail::Timeout, Fail::Eof, Fail::Disable, Fail::RemoveAssociation, Fail::NoisyTimeout, Fail::OtherAssociationReplies] {
+        for f in [Fail::Timeout, Fail::Eof, Fail::Disable, Fail::RemoveAssociation, Fail::NoisyTimeout, Fail::OtherAssociationReplies, Fail::RemoveOtherAssociation] {
             for step in 0..4 {
                 cases.push((k, f, step));
             }
@@ -495,6 +498,7 @@ impl CaseSpace for Outcomes {
         let name = submit(&mut sim, &a, k);
         let mut steps_done = 0usize;
         let mut injected = false;
+        let mut disturbed = false;
         let mut link_requests = 0usize;
         let t_start = sim.k.now_ms();
         // drive with an ideal outstation until the failure point
@@ -507,7 +511,14 @@ impl CaseSpace for Outcomes {
                         if transcript {
                             res.transcript.push(format!("step {steps_done}: request {}", app::hex(&data[..data.len().min(30)])));
                         }
-                        if fail != Fail::None && steps_done == at_step && !injected {
+                        if fail == Fail::RemoveOtherAssociation && steps_done == at_step && !disturbed {
+                            disturbed = true;
+                            let mut ch = sim.channel.clone();
+                            sim.call("remove-other", async move {
+                                ch.remove_association(dnp3::link::EndpointAddress::try_new(OTHER_OUTSTATION).unwrap()).await
+                            });
+                        }
+                        if fail != Fail::None && fail != Fail::RemoveOtherAssociation && steps_done == at_step && !injected {
                             injected = true;
                             match fail {
                                 Fail::Timeout | Fail::NoisyTimeout => {}
@@ -527,7 +538,7 @@ impl CaseSpace for Outcomes {
                                         ch.remove_association(dnp3::link::EndpointAddress::try_new(OUTSTATION_ADDR).unwrap()).await
                                     });
                                 }
-                                Fail::None => {}
+                                Fail::None | Fail::RemoveOtherAssociation => {}
                             }
                         } else if !injected {
                             let iin1 = if data[1] == fc::RECORD_CURRENT_TIME || data[1] == fc::DELAY_MEASURE { 0x10 } else { 0 };
@@ -620,6 +631,33 @@ impl CaseSpace for Outcomes {
                 format!("{} after {steps_done} ideal steps", done[0]),
             ));
             return res;
+        }
+        if fail == Fail::RemoveOtherAssociation && disturbed {
+            // the remaining association is still served: a further request completes
+            let mut a2 = a.clone();
+            sim.take_out();
+            sim.call("after-removal", async move { a2.read(ReadRequest::class_scan(Classes::class0())).await });
+            for _ in 0..4 {
+                for t in sim.take_out() {
+                    if let Some(f) = t.frag() {
+                        if f.len() >= 2 && f[1] != fc::CONFIRM {
+                            let r = ideal_reply(f, 0);
+                            sim.respond(&r);
+                        }
+                    }
+                }
+            }
+            sim.advance(2 * RT);
+            let (cbs, _) = sim.take_cb();
+            let ok = cbs.iter().any(|c| matches!(c, MCb::Done(n, r) if n == "after-removal" && r.contains("Ok(")));
+            if !ok {
+                res.violation = Some(Violation::new(
+                    "C16.U5",
+                    "request-on-the-remaining-association-not-completed-after-another-was-removed",
+                    format!("kind {k}: association {OTHER_OUTSTATION} removed at step {at_step}; a READ on {OUTSTATION_ADDR} afterwards: {:?}", cbs.iter().filter(|c| matches!(c, MCb::Done(..))).collect::<Vec<_>>()),
+                ));
+                return res;
+            }
         }
         res.model_states.push((k * 8 + fail as usize) as u64);
         res.nontrivial = true;
